@@ -916,6 +916,16 @@ class Evaluator:
         if fid in self.cm.by_id and self.cm.by_id[fid].body is not None:
             yield from self.inline(self.cm.by_id[fid], args, n, st)
             return
+        ff = getattr(self.prog, 'free_functions', {}).get(fid)
+        if ff is not None and name not in ('insert_allowed', 'update_allowed', 'to_string'):
+            # a free helper of the library itself (namespace cappuccino[::detail]): inlined like a private member
+            if fid not in self.ctx.lambdas:
+                lm = LambdaMethod(ff, 'cappuccino')
+                lm.name = name
+                lm.qname = 'cappuccino::%s' % name
+                self.ctx.lambdas[fid] = lm
+            yield from self.inline(self.ctx.lambdas[fid], args, n, st)
+            return
         if name in ('__assert_fail', '__assert_perror_fail', '__assert', 'abort', 'terminate', 'exit', '_Exit', 'quick_exit',
                     '__builtin_unreachable', '__builtin_trap', '__throw_out_of_range', '__throw_logic_error', '__throw_bad_optional_access'):
             # no-return call (failed assert ...): the path ends here, nothing after it is reachable
@@ -2144,7 +2154,21 @@ class Evaluator:
                 if len(vals) == 1 and vloc is not None:
                     it_st = vals[0][0]
                     it_st.store[vloc] = vals[0][1]
-            conds = self.cond(cond, it_st) if cond is not None else [(it_st, True)]
+            if kind == 'do':
+                # do { body } while (cond);  the body runs first, the condition decides whether another iteration follows
+                for st_b, flow in (self.exec(body, it_st) if body is not None else [(it_st, None)]):
+                    if flow is None or flow == ('continue',):
+                        for st_c, truth in (self.cond(cond, st_b) if cond is not None else [(st_b, True)]):
+                            # either way this iteration ran to completion (the false outcome only means it was the last one)
+                            L.iters.append(Path(st_c.trace, None, 'continue', st_c))
+                    elif flow == ('break',):
+                        L.iters.append(Path(st_b.trace, None, 'break', st_b))
+                    else:
+                        L.iters.append(Path(st_b.trace, flow[1], 'ret', st_b))
+                        outs.append((st_b, flow))
+                conds = []
+            else:
+                conds = self.cond(cond, it_st) if cond is not None else [(it_st, True)]
             for st_c, truth in conds:
                 if not truth:
                     L.cond_paths.append(Path(st_c.trace, None, 'exit'))
@@ -2196,7 +2220,6 @@ class Evaluator:
     def s_DoStmt(self, n, st):
         parts = [c for c in n.get('inner', []) if isinstance(c, dict) and c.get('kind')]
         body, cond = parts[0], parts[1]
-        self.unknown(st, 'stmt:DoStmt', n)
         yield from self.do_loop(n, st, 'do', None, cond, None, body)
 
     def s_ForStmt(self, n, st):
